@@ -82,7 +82,8 @@ fn invariant(tx: &Transaction, step: usize, ops: &[Op]) -> Result<(), Failure> {
     let n = tx.get_ninputs();
     for flag in ALL_FLAGS {
         let sh = sighash_of(flag)?;
-        for idx in 0..n.min(4) {
+        // the first six inputs and the last one
+        for idx in (0..n.min(6)).chain(if n > 6 { Some(n - 1) } else { None }) {
             let mut a = tx.clone();
             let mut b = fresh.clone();
             let pa = preimage(&mut a, sh, idx, 5000)?;
@@ -323,7 +324,7 @@ impl Property for C04 {
     }
 
     fn assumptions() -> Vec<String> {
-        vec!["the invariant is observed on clones (Transaction: Clone copies the memoised hashes with the contents), so observation does not perturb the history".into(), "input indices above 3 are not probed by the per-step invariant (the history's own ops use any index)".into()]
+        vec!["the invariant is observed on clones (Transaction: Clone copies the memoised hashes with the contents), so observation does not perturb the history".into(), "the per-step invariant probes the first six inputs and the last one (the history's own ops use any index)".into()]
     }
 
     fn cases(tier: Tier) -> u64 {
